@@ -15,7 +15,7 @@ CLANG = "clang++"
 OPT = "opt-14"
 CXXFILT = "llvm-cxxfilt-14"
 
-BASE_FLAGS = ["-std=gnu++17", "-fwrapv", "-g1", "-w", "-DNMTOOLS_VERIF",
+BASE_FLAGS = ["-std=gnu++17", "-fwrapv", "-g1", "-w", "-DNMTOOLS_VERIF", "-DNDEBUG",
               "-I%s/include" % REPO, "-I" + OBDIR, "-S", "-emit-llvm"]
 INL = ["-mllvm", "-inline-threshold=20000"]
 
